@@ -176,6 +176,140 @@ def law_instances(rnd, envs, n):
     return L
 
 
+# ---------------------------------------------------------------------------------------------------
+# fixed corpora (always run, every tier and seed)
+JOIN_ENVS = [
+    {'txn': {'description': 'REFUND 123', 'amount': fl(25), 'date': datetime.date(2025, 3, 1).toordinal(), 'field': None,
+             'source': 'Amex', 'location': None},
+     'vars': {'groups': enc([[1, 2], [3], [], [4, 5, 6]]), 'pairs': enc([[1.5, 2.5], [0.5]]), 'nothing': enc(None)},
+     'ds': {'orders': [{'id': enc(1), 'item': enc('Book'), 'amount': fl(10)}, {'id': enc(2), 'item': enc('Toy'), 'amount': fl(15)},
+                       {'id': enc(3), 'item': enc('Pen'), 'amount': fl(2.5)}, {'id': enc(2), 'item': enc('Cable'), 'amount': fl(7.5)}],
+            'refunds': [{'order_id': enc(2), 'amount': fl(15)}, {'order_id': enc(9), 'amount': fl(1)}, {'order_id': enc(1), 'amount': fl(10)}]}},
+    {'txn': {'description': 'x', 'amount': fl(0), 'date': None, 'field': None, 'source': None, 'location': None},
+     'vars': {'groups': enc([[], [7]]), 'pairs': enc([]), 'nothing': enc(None)},
+     'ds': {'orders': [{'id': enc(5), 'item': enc('Ink'), 'amount': fl(3)}], 'refunds': [{'order_id': enc(5), 'amount': fl(3)},
+                                                                                       {'order_id': enc(5), 'amount': fl(1)}]}},
+]
+
+
+def rebinding_family():
+    """multi-clause and nested comprehensions whose inner iterable is a bare name re-bound by the outer clause
+    (outer loop variable over a list of lists; := in the outer clause's condition), and a name re-bound between two
+    comprehensions: the iterable must be looked up afresh every time"""
+    match = ('comp', '[', 'o', [('o', 'orders', [('cmp', 'o.id', [('==', 'r.order_id')])])])
+    flat = [('g', 'groups', []), ('a', 'g', [])]
+    join = [('r', 'refunds', [('walrus', 'm', match)]), ('x', 'm', [])]
+    out = []
+    for kind in '[(':
+        out += [('comp', kind, 'a', flat), ('comp', kind, ('bin', '*', 'a', '2'), [('g', 'groups', []), ('a', 'g', [('cmp', 'a', [('>', '1')])])]),
+                ('comp', kind, 'x.item', join), ('comp', kind, ('bin', '+', 'x.amount', 'r.amount'), join),
+                ('comp', kind, 'a', [('g', 'pairs', []), ('a', 'g', [])]),
+                ('comp', kind, ('bin', '+', 'a', 'b'), [('g', 'groups', []), ('a', 'g', []), ('b', 'g', [('cmp', 'b', [('>', 'a')])])])]
+    gens = [t for t in out if t[1] == '(']
+    lists = [t for t in out if t[1] == '[']
+    res = list(lists)
+    for ge in gens:
+        res += [('call', 'sum', [ge]) if ge[2] != 'x.item' else ('call', 'len', [('comp', '[') + ge[2:]]),
+                ('call', 'any', [ge]), ('call', 'all', [ge]), ('call', 'next', [ge, 'None']), ('call', 'max', [ge]),
+                ('call', 'len', [('comp', '[') + ge[2:]])]
+    res += [
+        ('comp', '[', ('comp', '[', ('bin', '*', 'a', '2'), [('a', 'g', [])]), [('g', 'groups', [])]),
+        ('comp', '[', ('call', 'sum', [('comp', '(', 'a', [('a', 'g', [])])]), [('g', 'groups', [])]),
+        ('comp', '[', ('call', 'len', [('comp', '[', 'o', [('o', 'm', [])])]),
+         [('r', 'refunds', [('bool', 'or', [('walrus', 'm', match), 'True'])])]),
+        ('comp', '[', ('call', 'len', ['g']), [('g', 'groups', [])]),
+        ('comp', '[', ('call', 'len', ['orders']), [('orders', 'groups', [])]),
+        ('comp', '[', 'o', [('orders', 'groups', []), ('o', 'orders', [])]),
+        # the same comprehension text twice, its iterable re-bound in between
+        ('bin', '+', ('if', ('walrus', 'g', ('sub', 'groups', '0')), ('comp', '[', 'a', [('a', 'g', [])]), 'groups'),
+         ('if', ('walrus', 'g', ('sub', 'groups', '3')), ('comp', '[', 'a', [('a', 'g', [])]), 'groups')),
+        ('bin', '+', ('call', 'sum', [('comp', '(', 'a', [('a', ('walrus', 'g', ('sub', 'groups', '0')), [])])]),
+         ('call', 'sum', [('comp', '(', 'a', [('a', ('walrus', 'g', ('sub', 'groups', '3')), [])])])),
+        ('comp', '[', ('comp', '[', 'o.item', [('o', 'orders', [('cmp', 'o.id', [('==', 'r.order_id')])])]), [('r', 'refunds', [])]),
+        ('comp', '[', 'o.item', [('r', 'refunds', []), ('o', 'orders', [('cmp', 'o.id', [('==', 'r.order_id')])])]),
+    ]
+    return res
+
+
+REGEX_TEXTS = ['UBER EATS 123', 'uber *trip', 'ref 77 Uber', 'AB ab', '  padded  ', '€5 uber', 'a_b-c', '12:30']
+
+
+def regex_pair_corpus():
+    """pairs of patterns that differ only in the letter case of an escape class, or in surrounding blanks, evaluated
+    back to back in one process (lower first for one spelling, upper first for another), also through extract() and
+    regex_replace(): each call must mean re.search/re.sub(pattern, text, IGNORECASE) for ITS pattern"""
+    jobs = []
+    for c in 'dswb':
+        lo, up = '\\' + c, '\\' + c.upper()
+        shapes = [('%s+', '%s+'), ('^%s', '^%s'), ('r%s', 'r%s'), ('%s{2}', '%s{2}')] if c != 'b' else \
+                 [('uber%s', 'uber%s'), ('%s7', '%s7'), ('%sab', '%sab'), ('d%s', 'd%s')]
+        for i, (a, b) in enumerate(shapes):
+            first, second = (a % lo, b % up) if i % 2 == 0 else (a % up, b % lo)
+            for t in REGEX_TEXTS[(i * 2) % 8:][:3] + REGEX_TEXTS[:2]:
+                for p in (first, second):
+                    jobs.append(('regex', f'regex({pylit(t)}, {pylit(p)})', bool(re.search(p, t, re.IGNORECASE))))
+        g1, g2 = ('(%s+)' % lo, '(%s+)' % up) if c in 'dw' else ('(%s+)' % up, '(%s+)' % lo)
+        for t in REGEX_TEXTS[:4]:
+            for p in (g1, g2):
+                m = re.search(p, t, re.IGNORECASE)
+                jobs.append(('extract', f'extract({pylit(t)}, {pylit(p)})', m.group(1) if m and m.groups() else ''))
+                jobs.append(('regex_replace', f'regex_replace({pylit(t)}, {pylit(p)}, "#")', re.sub(p, '#', t, flags=re.IGNORECASE)))
+    for a, b in [('uber', ' uber'), ('Uber ', 'uber'), ('u.er', 'U.ER'), ('[a-c]b', '[A-C]B'), ('ab$', 'AB$'), ('(?-i:ab)', '(?-i:AB)')]:
+        for t in REGEX_TEXTS[:5]:
+            for p in (a, b):
+                jobs.append(('regex', f'regex({pylit(t)}, {pylit(p)})', bool(re.search(p, t, re.IGNORECASE))))
+                jobs.append(('regex', f'regex({pylit(p)})', None))
+    return jobs
+
+
+def fuzzy_spec(text, pattern, thr=0.8, swapped=False):
+    """fuzzy(): some window of the pattern's length over the upper-cased text has SequenceMatcher(None, window, pattern)
+    .ratio() >= threshold (the whole text if it is shorter than the pattern)"""
+    from difflib import SequenceMatcher
+    t, p = text.upper(), pattern.upper()
+    r = (lambda w: SequenceMatcher(None, p, w).ratio()) if swapped else (lambda w: SequenceMatcher(None, w, p).ratio())
+    if len(p) > len(t):
+        return r(t) >= thr
+    return any(r(t[i:i + len(p)]) >= thr for i in range(len(t) - len(p) + 1))
+
+
+FUZZY_FIXED = [('AIRNIBNB STAY', 'AIRBNB', 0.8), ('AMAZMAON MKTP', 'AMAZON', 0.8), ('TIDE', 'DIET', 0.4), ('STARBUKS', 'STARBUCKS', 0.8),
+               ('STARBUCK', 'STARBUCKS', 0.8), ('NETFLX.COM', 'NETFLIX', 0.8), ('', 'X', 0.8), ('X', '', 0.8)]
+_FUZZY = []
+
+
+def fuzzy_corpus():
+    """texts with typos for which ratio(window, pattern) and ratio(pattern, window) fall on different sides of the
+    threshold (SequenceMatcher.ratio is not symmetric), found by a deterministic search, plus fixed witnesses"""
+    if _FUZZY:
+        return _FUZZY
+    rnd = random.Random(20260101)
+    out = list(FUZZY_FIXED)
+    vocab = ['AIRBNB', 'AMAZON', 'STARBUCKS', 'NETFLIX', 'COSTCO', 'WALMART', 'SPOTIFY', 'CHIPOTLE', 'SAFEWAY', 'TARGET']
+    tries = 0
+    while len(out) < len(FUZZY_FIXED) + 14 and tries < 40000:
+        tries += 1
+        w = rnd.choice(vocab)
+        s = list(w)
+        for _ in range(rnd.choice([1, 2, 2, 3])):
+            i = rnd.randrange(len(s))
+            k = rnd.random()
+            if k < 0.35:
+                s.insert(i, rnd.choice(w))
+            elif k < 0.6:
+                s.insert(i, s[i])
+            elif k < 0.85 and i + 1 < len(s):
+                s[i], s[i + 1] = s[i + 1], s[i]
+            else:
+                del s[i]
+        text = rnd.choice(['', 'SQ ', 'THE ']) + ''.join(s) + rnd.choice(['', ' STAY', ' MKTP', ' #12'])
+        thr = rnd.choice([0.8, 0.8, 0.75, 0.9, 0.7])
+        if fuzzy_spec(text, w, thr) != fuzzy_spec(text, w, thr, swapped=True) and (text, w, thr) not in out:
+            out.append((text, w, thr))
+    _FUZZY.extend(out)
+    return _FUZZY
+
+
 TEXTS = ['UBER EATS 123', 'uber *trip', '', 'Whole-Foods Mkt', 'WHOLE FOODS', 'NETFLIX.COM', 'ref 77 Uber', '  padded  ',
          'AB ab', 'ACH-OUT-123', 'AMZN*MARKET', 'SQ*COFFEE', 'STORE DES:123', "O'Reilly-Media.", '€5 uber', 'x']
 PATS = ['uber', 'UBER', 'Uber eats', '', 'whole', 'WHOLEFOODS', 'oreillymedia', 'ach-', 'sq*', ' des:123', 'x', 'mkt', '€5', '123']
@@ -269,6 +403,14 @@ def spec_instances(rnd, envs, n):
         else:
             add('walrus', ei, f'((w := {T}) == w)', V(True))
             add('walrus', ei, f'((w := {P}) + W)', V(p + p))
+    # fixed corpora: regex pattern pairs, order-sensitive fuzzy witnesses
+    for name, expr, expected in regex_pair_corpus():
+        if expected is not None:
+            add('corpus-' + name, 0, expr, V(expected))
+    for text, pat, thr in fuzzy_corpus():
+        add('corpus-fuzzy', 0, f'fuzzy({pylit(text)}, {pylit(pat)}, {thr})', V(fuzzy_spec(text, pat, thr)))
+        if thr == 0.8:
+            add('corpus-fuzzy', 0, f'fuzzy({pylit(text.lower())}, {pylit(pat)})', V(fuzzy_spec(text, pat, thr)))
     # the reference's own examples
     E0 = 0
     ref = [
@@ -353,7 +495,8 @@ def model_one(env, text, out, log):
     if mc['bad']:
         return 'disagree'
     if mc['skipped']:
-        return 'unmodelled: ' + list(mc['skipped'].values())[0]
+        why = list(mc['skipped'].values())[0]
+        return 'disagree' if why.endswith('oracle-miss') else 'unmodelled: ' + why
     if mc['not_comparable']:
         return 'not-comparable'
     return 'agree'
@@ -400,6 +543,12 @@ def main(tier):
         corr += [((i * 7) % nb, t) for i, t in enumerate(fam) if i % 3 == run.seed % 3 or i >= len(fam) - 24]
     else:
         corr += [(ei, t) for t in fam for ei in (0, 1, 3, 4)]
+    envs += JOIN_ENVS
+    j0 = len(envs) - len(JOIN_ENVS)
+    reb = rebinding_family()
+    corr += [(j0 + d, t) for t in reb for d in range(len(JOIN_ENVS))]
+    corr += [(0, e) for _, e, _ in regex_pair_corpus()] + \
+            [(0, f'fuzzy({pylit(t)}, {pylit(p)}, {th})') for t, p, th in fuzzy_corpus()]
     n_exh = len(corr)
     for i in range(3000 if quick else 25000):
         corr.append((rnd.randrange(len(envs)), G.gen(rnd, 'any', rnd.choice([2, 3, 4, 5, 6]))))
@@ -431,6 +580,7 @@ def main(tier):
     if quick:
         pyf = [t for i, t in enumerate(pyf) if i % 2 == run.seed % 2 or i >= len(pyf) - 3]
     py_jobs = [[ei, src(t)] for t in pyf for ei in ((0, 1) if quick else (0, 1, 2, 5, nb, nb + 1))]
+    py_jobs += [[j0 + d, src(t)] for t in reb for d in range(len(JOIN_ENVS))]
 
     all_jobs = corr_jobs + law_jobs + py_jobs
     t0 = time.time()
@@ -487,6 +637,12 @@ def main(tier):
     if res['ok']:
         cases = [(ei, text, o) for (ei, text), o in zip(corr_jobs, corr_out)]
         mc = model_check('C04', all_envs, cases, r['log'], jobs=4)
+        # the model asked the regex / fuzzy oracle something the harness has no CPython answer for: the code did not
+        # make (and the expression does not spell) the call the model expects -- counted as a disagreement
+        for i2, why in list(mc['skipped'].items()):
+            if why.endswith('oracle-miss'):
+                mc['bad'].append(i2)
+                del mc['skipped'][i2]
     t_model = time.time() - t0
     if res['ok'] and mc['error']:
         broken.append({'kind': 'broken-correspondence', 'obligation': 'model_vs_impl(Expr.Eval.eval_top, evaluate_transaction)',
